@@ -4,7 +4,9 @@ P=$(readlink -f "$1"); shift
 cd /repo || exit 2
 if ! git diff --quiet; then echo "/repo has uncommitted changes; refusing"; exit 2; fi
 git apply "$P" || { echo "patch does not apply"; exit 2; }
-trap 'git -C /repo checkout -- . ; git -C /repo clean -fdq -- src tests 2>/dev/null' EXIT
+CHANGED=$(git diff --name-only)
+sleep 1; touch $CHANGED   # cargo's mtime fingerprint must see the edit
+trap 'cd /repo; git checkout -- . ; git clean -fdq -- src tests 2>/dev/null; sleep 1; touch $CHANGED 2>/dev/null' EXIT
 cd /verif
 for id in "$@"; do
   echo "=== $id with $(basename $(dirname $P))/$(basename $P)"
